@@ -57,12 +57,7 @@ func main() {
 	}
 }
 
-func registerGroups() {
-	groups["LEX"] = runLEX
-	groups["ERRFMT"] = runERRFMT
-	groups["LIMIT"] = runLIMIT
-	groups["ERRPOS"] = runERRPOS
-}
+func registerGroups() {}
 
 func doReplay(e *Env, line string) int {
 	d, err := StartDriver(e.DriverPath)
